@@ -82,15 +82,15 @@ type vfC07Res struct {
 }
 
 type vfC07Vec struct {
-	ID     int        `json:"id"`
-	Mode   string     `json:"mode"`
-	Lens   []int      `json:"lens"`
-	K      int        `json:"k"`
-	Res    []vfC07Res `json:"res"`
-	Wire   []int      `json:"wire"`  // after the first round (writer index 1.. per byte)
-	Res2   vfC07Res   `json:"res2"`  // a further frame (length 2, writer index 9) written afterwards
-	Wire2  []int      `json:"wire2"` // bytes that further write put on the socket
-	Stuck  int        `json:"stuck"`
+	ID    int        `json:"id"`
+	Mode  string     `json:"mode"`
+	Lens  []int      `json:"lens"`
+	K     int        `json:"k"`
+	Res   []vfC07Res `json:"res"`
+	Wire  []int      `json:"wire"`  // after the first round (writer index 1.. per byte)
+	Res2  vfC07Res   `json:"res2"`  // a further frame (length 2, writer index 9) written afterwards
+	Wire2 []int      `json:"wire2"` // bytes that further write put on the socket
+	Stuck int        `json:"stuck"`
 }
 
 var vfC07Fail = errors.New("vf: socket failure")
@@ -281,8 +281,10 @@ func TestVfC07Concurrent(t *testing.T) {
 		cancelAt := make([]time.Duration, nw)
 		for i := range cancelAt {
 			cancelAt[i] = -1
-			if rng.Intn(4) == 0 {
+			if x := rng.Intn(8); x < 2 {
 				cancelAt[i] = time.Duration(rng.Intn(1200)) * time.Microsecond
+			} else if x == 2 {
+				cancelAt[i] = 0 // already cancelled when the writer is called
 			}
 		}
 		res := make([]vfC07Res, nw)
@@ -298,8 +300,12 @@ func TestVfC07Concurrent(t *testing.T) {
 				if cancelAt[i] >= 0 {
 					var cancel context.CancelFunc
 					ctx, cancel = context.WithCancel(ctx)
-					t := time.AfterFunc(cancelAt[i], cancel)
-					defer t.Stop()
+					if cancelAt[i] == 0 {
+						cancel()
+					} else {
+						t := time.AfterFunc(cancelAt[i], cancel)
+						defer t.Stop()
+					}
 					defer cancel()
 				}
 				n, err := w.writeContext(ctx, vfC07Frame(i+1, lens[i]))
